@@ -121,6 +121,7 @@ type vfmWorld struct {
 	ninc    int
 	reloads []map[string]*conf.Path // conf objects of reload i (1-based; 0 = initial)
 	pubs    map[*path]*vfmPub
+	byName  map[string]*vfmPub // the publisher that keeps a requested name busy
 	closed  []int
 }
 
@@ -135,6 +136,11 @@ type vfmPub struct {
 func (p *vfmPub) Close() {
 	p.w.mu.Lock()
 	p.w.closed = append(p.w.closed, p.w.incs[p.pa])
+	for n, q := range p.w.byName {
+		if q == p {
+			delete(p.w.byName, n)
+		}
+	}
 	p.w.mu.Unlock()
 }
 func (p *vfmPub) Log(logger.Level, string, ...any) {}
@@ -282,7 +288,7 @@ func (w *vfmWorld) observe(st *vfmStep) {
 }
 
 func vfmExec(t testing.TB, r *vfmRun, init map[string]vfmConf) {
-	w := &vfmWorld{incs: map[*path]int{}, pubs: map[*path]*vfmPub{}}
+	w := &vfmWorld{incs: map[*path]int{}, pubs: map[*path]*vfmPub{}, byName: map[string]*vfmPub{}}
 	vfmCurMu.Lock()
 	vfmCur = w
 	vfmCurMu.Unlock()
@@ -374,6 +380,23 @@ func vfmExec(t testing.TB, r *vfmRun, init map[string]vfmConf) {
 			if err == nil {
 				p.pa = res.Path.(*path)
 				w.incOf(p.pa)
+				w.mu.Lock()
+				w.byName[a.Name] = p
+				w.mu.Unlock()
+				st.Done = true
+			}
+
+		case "Release":
+			// the publisher of the name leaves, as a closing connection does
+			w.mu.Lock()
+			p := w.byName[a.Name]
+			delete(w.byName, a.Name)
+			w.mu.Unlock()
+			if p != nil && p.pa != nil {
+				p.pa.RemovePublisher(defs.PathRemovePublisherReq{Author: p})
+				// barrier through the path loop: the iteration that served the request (and, for a path
+				// that closes itself, its closePathIfIdle round trip with the manager) is over
+				p.pa.APIPathsGet(pathAPIPathsGetReq{}) //nolint:errcheck
 				st.Done = true
 			}
 		}
